@@ -50,11 +50,20 @@ def selftest(pid):
             out["total"] += 1
             if keys:
                 out["killed"] += 1
-    b = os.path.join(verif, "selftest", "benign", "all-benign.diff")
-    if os.path.exists(b):
+    twins = [os.path.join(verif, "selftest", "benign", "all-benign.diff")]
+    twins += sorted(glob.glob(os.path.join(verif, "selftest", "benign", "agents-bundle-*.diff")))
+    res = []
+    for b in twins:
+        if not os.path.exists(b):
+            continue
         r = subprocess.run([os.path.join(verif, "bin", "try-mutant"), b, pid], stdout=subprocess.PIPE, stderr=subprocess.STDOUT, text=True)
         keys = re.findall(r"key: (.*)", r.stdout)
-        out["benign_twin"] = {"applied": "FAILED" not in r.stdout, "silent": not keys, "reported": keys[:6]}
+        res.append({"patch": os.path.relpath(b, verif), "applied": "FAILED" not in r.stdout and "ERROR" not in r.stdout,
+                    "silent": not keys, "reported": keys[:6]})
+    if res:
+        # one verdict over all behaviour-preserving twins (own refactorings + the sub-agents' 40, bundled)
+        out["benign_twin"] = {"applied": all(x["applied"] for x in res), "silent": all(x["silent"] for x in res),
+                              "reported": [k for x in res for k in x["reported"]][:6], "twins": res}
     return out
 
 
